@@ -33,3 +33,29 @@ Definition room_strict (s : bytes) : bool :=
   | Some (_, None) => true
   | None => false
   end.
+
+(* which departure makes the code accept a string outside the grammar (empty: none applies);
+   used to label the failures the oracles report *)
+Definition sn_departure (s : bytes) : bytes :=
+  match sn_parse s with
+  | Some (host, _, HBr4) => bs "bracketed-ipv4"
+  | Some (host, _, HMapped) => bs "unbracketed-ipv4-mapped-ipv6"
+  | Some (host, _, _) => if 255 <? len host then bs "dns-name-longer-than-255" else []
+  | None => []
+  end.
+
+Definition user_departure (historical : bool) (s : bytes) : bytes :=
+  match user_id_parse historical s with
+  | Some (l, d) => if is_nil l then bs "empty-localpart" else sn_departure d
+  | None => []
+  end.
+
+Definition room_departure (s : bytes) : bytes :=
+  match room_id_parse s with
+  | Some (_, Some d) =>
+      match sn_departure d with
+      | [] => if 255 <? len s then bs "room-id-longer-than-255" else []
+      | r => r
+      end
+  | _ => []
+  end.
